@@ -485,7 +485,19 @@ pub fn check_panics(sc: &Scenario, h: &History, infos: &[SysInfo], ro: &RunOut, 
                     ));
                 }
             }
-            (Some(_), true) => {} // a panic nobody injected: reported elsewhere (C01 borrow / C04 dispatch-panicked)
+            (Some(p), true) => {
+                // a panic nobody injected in this call (also reported as C01 borrow / C04
+                // dispatch-panicked): after a caught panic of an earlier call the dispatcher
+                // must behave as if nothing had happened
+                let earlier = sc.faults.iter().enumerate().any(|(i, f)| f.call < ci && is_panic(f.kind) && fired.get(i).copied().unwrap_or(false));
+                if earlier && !crate::util::is_borrow_panic(p) {
+                    out.push(vio(
+                        "C14",
+                        "redispatch-panicked",
+                        format!("call #{} ({:?}) panicked ({:?}) although no system panicked during it; a panic of an earlier call had been caught", ci, c.call, p.lines().next().unwrap_or("")),
+                    ));
+                }
+            }
         }
         // run counters: nothing runs more than once per dispatch (top level)
         let prev: Vec<u64> = if ci == 0 { vec![0; infos.len()] } else { ro.calls[ci - 1].runs_after.clone() };
